@@ -84,7 +84,33 @@ def specs(repo):     # noqa: F811
 ORDER = ORDER + ['text']
 
 
-# ---- C14: aggregates.  excellib._numerics / sum_ and lib.stats average /
+# ---- C19: pycel.excellib — the rounding family (plain arithmetic over numbers;
+# the @excel_math_func wrappers are modelled in coq/Model/MathWrap.v)
+_specs_before_excellib = specs
+
+
+def specs(repo):     # noqa: F811
+    S = _specs_before_excellib(repo)
+    S['excellib'] = dict(
+        pymod='pycel.excellib',
+        path=os.path.join(repo, 'src', 'pycel', 'excellib.py'),
+        consts=[],
+        import_consts=['ROUND_DOWN', 'ROUND_HALF_UP', 'ROUND_UP'],
+        funcs=['ceiling', 'ceiling_math', 'ceiling_precise', 'even', 'floor', 'floor_math',
+               'floor_precise', 'int_', 'mod', 'odd', 'round_', '_round', 'rounddown', 'roundup',
+               'sign', 'trunc', 'abs_'],
+        externs=excelutil_externs(),
+        libcalls={'math.ceil': ('py_ceil', 1), 'math.floor': ('py_floor', 1),
+                  'math.copysign': ('py_copysign', 2)},
+    )
+    return S
+
+
+ORDER = ORDER + ['excellib']
+
+
+# ---- C14: aggregates (generated module Gen/aggregates.v: the name excellib is taken by
+# C19's rounding family).  excellib._numerics / sum_ and lib.stats average /
 # count / max_ / min_ are translated (the *args / lambda-default extensions are
 # at the end of pylite.py); the signature of _numerics that the callers in
 # lib.stats see is read from excellib.py itself, so a changed default changes
@@ -99,16 +125,16 @@ def specs(repo):     # noqa: F811
     src = os.path.join(repo, 'src', 'pycel')
     ext = excelutil_externs()
     xl = os.path.join(src, 'excellib.py')
-    S['excellib'] = dict(
+    S['aggregates'] = dict(
         pymod='pycel.excellib', path=xl, consts=[],
         funcs=['_numerics', 'sum_'],
         externs=ext,
         libcalls={'flatten': ('py_flatten', 1)},
     )
-    probe = ModuleTranslator('excellib', 'pycel.excellib', xl, funcs=['_numerics'])
+    probe = ModuleTranslator('aggregates', 'pycel.excellib', xl, funcs=['_numerics'])
     ninfo = probe.info_of(probe.find_def('_numerics'), '_numerics')
     ext2 = dict(ext)
-    ext2['_numerics'] = ('func', 'excellib.f__numerics', ninfo)
+    ext2['_numerics'] = ('func', 'aggregates.f__numerics', ninfo)
     S['stats'] = dict(
         pymod='pycel.lib.stats', path=os.path.join(src, 'lib', 'stats.py'), consts=[],
         funcs=['average', 'count', 'max_', 'min_'],
@@ -122,7 +148,7 @@ def specs(repo):     # noqa: F811
     return S
 
 
-ORDER = ORDER + ['excellib', 'stats', 'excelformula']
+ORDER = ORDER + ['aggregates', 'stats', 'excelformula']
 
 
 def generate(repo, out, modules=None):
